@@ -155,7 +155,7 @@ CHECKS = {
         "supply PDSxxxx KEYS are covered end to end by C01_roundtrip_pds (every sub-element comes back with its value, "
         "wherever carrier boundaries fall; carrier hypotheses discharged for the packaged configuration by decide). Tied "
         "to /repo by differential execution over every single "
-        "bit, every pair, boundary/every length, 6 codecs x 2 bitmap forms, packaged + generated configurations. In addition a SOURCE TIE for the bitmap conversion: harness/pytrans.py translates the current Python text of BitArray.tolist / fromlist (which go through one big integer) into Lean (Gen/Src.lean) on every run and lean/Cardutil/SrcTie/Bits.lean proves, for all inputs, that the translation equals the byte-by-byte model (tolist_eq, fromlist_eq) and restates the bitmap clause for the translated code (C01_source_bits_roundtrip, C02_source_bitmap, C02_source_bitmap_read); the public entry points dumps / loads are translated (optional arguments: None or an empty value is the default encoding / the packaged table; the workers external) and lean/Cardutil/SrcTie/Entry.lean proves dumps_eq / loads_eq, C02_source_defaults, C02_source_empty_config_is_packaged and C01_source_entry_roundtrip (both entry points resolve their arguments alike); the encoding loop / assembly and the whole decoder are translated with the element encoder and decoder as parameters, and lean/Cardutil/SrcTie/LoopRoundTrip.lean proves C01_source_loop_roundtrip, C01_source_whole_roundtrip and C01_source_whole_roundtrip_bits: for ANY element encoder / decoder pair such that every present element's rendering is decoded back whatever follows it, the message the translated encoder assembles (MTI, binary bitmap written by the translated BitArray, element data) is read back by the translated _iso8583_to_dict as the accumulated dictionary of the elements' decodings; when the source changes so that this no longer checks, the check runs its thorough generators (time-boxed) before answering (the correspondence remains the deciding tie).",
+        "bit, every pair, boundary/every length, 6 codecs x 2 bitmap forms, packaged + generated configurations. In addition a SOURCE TIE for the bitmap conversion: harness/pytrans.py translates the current Python text of BitArray.tolist / fromlist (which go through one big integer) into Lean (Gen/Src.lean) on every run and lean/Cardutil/SrcTie/Bits.lean proves, for all inputs, that the translation equals the byte-by-byte model (tolist_eq, fromlist_eq) and restates the bitmap clause for the translated code (C01_source_bits_roundtrip, C02_source_bitmap, C02_source_bitmap_read); the public entry points dumps / loads are translated (optional arguments: None or an empty value is the default encoding / the packaged table; the workers external) and lean/Cardutil/SrcTie/Entry.lean proves dumps_eq / loads_eq, C02_source_defaults, C02_source_empty_config_is_packaged and C01_source_entry_roundtrip (both entry points resolve their arguments alike); the encoding loop / assembly and the whole decoder are translated with the element encoder and decoder as parameters, and lean/Cardutil/SrcTie/LoopRoundTrip.lean proves C01_source_loop_roundtrip, C01_source_whole_roundtrip and C01_source_whole_roundtrip_bits: for ANY element encoder / decoder pair such that every present element's rendering is decoded back whatever follows it, the message the translated encoder assembles (MTI, binary bitmap written by the translated BitArray, element data) is read back by the translated _iso8583_to_dict as the accumulated dictionary of the elements' decodings; the WHOLE element decoder _iso8583_to_field is translated as one function (framing, text decoding, the card-number processors, the typed conversion — with a second translation of _string_to_pytype for the binary ICC element —, PDS / DE43 / ICC derived entries), and lean/Cardutil/SrcTie/FieldWhole.lean proves text_element_recovered (the translated element encoder's rendering of a text value that fits is decoded back by the translated whole element decoder, whatever follows it) and C01_source_text_roundtrip(_production): END TO END, for messages of text elements and the three production codecs, translated encoder then translated decoder return every value under its key — no encoder, decoder or bitmap reader is left as a parameter (two kernel-evaluated examples run the translated code on a concrete message); when the source changes so that this no longer checks, the check runs its thorough generators (time-boxed) before answering (the correspondence remains the deciding tie).",
         "Trusted: Lean kernel; standard axioms; hand-written model; strptime(strftime d)=d, a hypothesis of WFField.date, is PROVED for the "
         "Lean model of strptime (Lemmas/Time.lean strptime_strftime, C01_date_wellformed) for every date-time expressible in the format; the model of strptime itself is validated differentially; DE43 keys applied by Python's re in the harness.",
         "DESIGN.md §8 C01"),
